@@ -18,6 +18,8 @@
 #include "ola/network/Socket.h"
 #include "ola/network/SocketAddress.h"
 #include "ola/rdm/RDMCommand.h"
+#include "ola/rdm/RDMReply.h"
+#include "ola/rdm/RDMControllerInterface.h"
 #include "ola/rdm/UID.h"
 #include "ola/rdm/UIDSet.h"
 #define private public
@@ -146,6 +148,45 @@ struct Twin {
     delete req;
     delete cb;
   }
+  // pending RDM request on input port 0 (controller side): cc:pid:sub:src uid:dst uid, or "-"
+  string pend;
+  unsigned tn;
+  void send_request() {
+    vector<string> f = vh::split(pend, ':');
+    vector<uint8_t> su = vh::unhex(f[3]), du = vh::unhex(f[4]);
+    UID src(su.data()), dst(du.data());
+    RDMRequest *req;
+    if (vh::num(f[0]) == 0x30)
+      req = new ola::rdm::RDMSetRequest(src, dst, tn++, 1, vh::num(f[2]), vh::num(f[1]), NULL, 0);
+    else
+      req = new ola::rdm::RDMGetRequest(src, dst, tn++, 1, vh::num(f[2]), vh::num(f[1]), NULL, 0);
+    size_t k = sock->sent.size();
+    node->SendRDMRequest(0, req, ola::NewSingleCallback(this, &Twin::on_reply));
+    sock->sent.resize(k);   // the ArtRdm request itself is not part of the observation
+  }
+  void on_reply(ola::rdm::RDMReply *reply) {
+    const ola::rdm::RDMResponse *r = reply->Response();
+    string e = "A" + vh::str(static_cast<unsigned>(reply->StatusCode()));
+    if (r) {
+      vector<uint8_t> b(21);
+      r->DestinationUID().Pack(&b[0], 6);
+      r->SourceUID().Pack(&b[6], 6);
+      b[12] = r->TransactionNumber();
+      b[13] = r->ResponseType();
+      b[14] = r->MessageCount();
+      b[15] = r->SubDevice() >> 8;
+      b[16] = r->SubDevice() & 0xff;
+      b[17] = static_cast<uint8_t>(r->CommandClass());
+      b[18] = r->ParamId() >> 8;
+      b[19] = r->ParamId() & 0xff;
+      b[20] = r->ParamDataSize();
+      if (r->ParamDataSize()) b.insert(b.end(), r->ParamData(), r->ParamData() + r->ParamDataSize());
+      e += "." + vh::hex(b);
+    }
+    ev.push_back(e);
+    // what QueueingRDMController does: the next request goes out from the completion callback
+    if (reply->StatusCode() == ola::rdm::RDM_COMPLETED_OK) send_request();
+  }
   void on_tod(const UIDSet &uids) {
     string s = "T";
     bool first = true;
@@ -183,6 +224,9 @@ struct Twin {
     }
     node->SetUnsolicitedUIDSetHandler(0, ola::NewCallback(this, &Twin::on_tod));
     node->m_running = true;   // Start() without the network set-up and the initial ArtPoll/ArtPollReply
+    pend = f.size() > 9 ? f[9] : "-";
+    tn = 0;
+    if (pend != "-") send_request();
   }
   void teardown() { node->m_running = false; node.reset(); }
 
